@@ -65,6 +65,11 @@ func yamlNode(v reflect.Value) (*yaml.Node, error) {
 				name = strings.ToLower(f.Name)
 			}
 
+			if strings.Contains(opts, "omitempty") && (v.Field(i).IsZero() ||
+				((v.Field(i).Kind() == reflect.Map || v.Field(i).Kind() == reflect.Slice) && v.Field(i).Len() == 0)) {
+				continue
+			}
+
 			val, err := yamlNode(v.Field(i))
 			if err != nil {
 				return nil, err
